@@ -270,6 +270,14 @@ def fault_run(args):
     return out
 
 
+def bad_key(r):
+    """producer, kind of call that was hit, kind of damage first (known findings match on this
+    prefix); fault, position and previous-version flag after it."""
+    why = (r["why"] or "").split(":")[0]
+    why = " ".join(w for w in why.split() if not any(c.isdigit() for c in w) and "/" not in w and "." not in w)[:60]
+    return "%s fault at %s: final file %s [%s at call %d prev=%s]" % (r["producer"], r["opbrief"], why, r["fault"], r["k"], r["prev"])
+
+
 def validate_traces(ctx, traces, name):
     """traces: list of dict(producer, prev, expect, ev).  Returns (accepted idx set, TLC result)."""
     d = os.path.join(ctx.scratch, "batch-%s.json" % name)
@@ -346,7 +354,7 @@ def run(ctx):
         n = len(ops)
         ks = list(range(1, n + 1))
         if quick:
-            keep = [k for k in ks if ops[k - 1].kind != "write" and ops[k - 1].cls != "sub"]
+            keep = [k for k in ks if (ops[k - 1].kind != "write" and ops[k - 1].cls != "sub") or ops[k - 1].kind == "open"]
             rest = [k for k in ks if k not in keep]
             rng.shuffle(rest)
             ks = sorted(set(keep + rest[:max(3, len(rest) // 4)]))
@@ -375,8 +383,7 @@ def run(ctx):
             traces.append({"producer": fsfault.SPEC_PRODUCER[r["producer"]], "prev": r["prev"], "expect": r["expect"], "ev": r["events"]})
             meta.append({"producer": r["producer"], "fault": r["fault"], "k": r["k"], "prev": r["prev"], "op": r["opbrief"]})
         if r["state"] == "BAD":
-            ctx.violation("%s %s at call %d (%s) prev=%s: final file %s" % (r["producer"], r["fault"], r["k"], r["opbrief"], r["prev"],
-                                                                        (r["why"] or "").split(":")[0][:60]),
+            ctx.violation(bad_key(r),
                           "after %s at position %d (%s) of producer %s the final path is neither missing nor complete: %s"
                           % (r["fault"], r["k"], r["optext"][:120], r["producer"], r["why"]),
                           {"producer": r["producer"], "k": r["k"], "fault": r["fault"], "prev": r["prev"], "opname": r["opname"],
@@ -424,7 +431,7 @@ def run(ctx):
                   positions={p: len(clean[p]["ops"]) for p in PRODUCERS}, outcomes=outcomes,
                   exhaustive=not quick, nonvacuity=nonvac, action_coverage={a: cov.get(a) for a in ACTIONS},
                   rule="for every producer, every position k of its clean syscall sequence on the output directory "
-                       "(quick: every non-write call on the final/temp names plus a seeded quarter of the rest) x {SIGKILL on entry, ENOSPC, EIO} "
+                       "(quick: every non-write call on the final/temp names, every open, plus a seeded quarter of the rest) x {SIGKILL on entry, ENOSPC, EIO} "
                        "x {with, without a previous version}; a run counts as distinct non-trivial when strace confirms that the "
                        "fault hit exactly call k and the producer consequently died or raised or left something other than the new version")
     for p in ("status", "createzip"):
@@ -462,7 +469,6 @@ def replay(ctx, path):
     r = fault_run((ctx.scratch, inputs, p, rec["prev"], k, rec["fault"], o.name if o else "-", o.j if o else 0,
                    fsfault.signature(ops), len(ops)))
     if r["state"] == "BAD":
-        ctx.violation("%s %s at call %d (%s) prev=%s: final file %s" % (p, r["fault"], k, r["opbrief"], r["prev"], (r["why"] or "").split(":")[0][:60]),
-                      r["why"], rec)
+        ctx.violation(bad_key(r), r["why"], rec)
     else:
         print("replay: final path is %s after %s at call %d" % (r["state"], rec["fault"], k))
